@@ -138,6 +138,20 @@ def getVectorHeaderG (b : Bytes) : Res Nat :=
     | .error e => .error e
     | .ok (n, r') => if Facts.C20.vectorNegative (toInt32 n) then .error .invalidLength else .ok (n, r')
 
+/-- `Buffer.PutBool`, interpreting the regenerated switch table (value ↦ type id). -/
+def putBoolG (v : Bool) : Option Bytes :=
+  match Facts.C20.boolEncodeTable.lookup v with
+  | some id => some (putU32 id)
+  | none => none
+
+/-- `Buffer.Bool`, interpreting the regenerated switch table (type id ↦ value; `default` = unexpected id). -/
+def getBoolG (b : Bytes) : Res Bool :=
+  if Facts.C20.peekIDShort b.length then .error .eof
+  else
+    match Facts.C20.boolDecodeTable.lookup (fromLE (b.take 4)) with
+    | some v => .ok (v, b.drop Facts.C20.uint32Advance.toNat)
+    | none => .error .unexpectedID
+
 /-! ### `bin.Fields` (the TL `#` flags word) -/
 
 /-- `1 << n` in `uint32` arithmetic (shift count ≥ 32 gives 0). -/
